@@ -17,7 +17,8 @@ META = dict(
         quick="arbitrary symbolic account (incl. empty and zero-equity: balances of USD/BTC/ETH symbolic >= 0, an "
               "optional earlier loan), 2 priced pairs with closes from {100, 31234.56} x {2.5, 1800}, margin requirement "
               "from {0, 0.25, 0.5, 1, 2}, interest 7 %/day in USD with minimum {0, 0.01}; the loan under test: "
-              "create_loan(symbol in {USD, BTC, ETH}, symbolic amount) and limit/market orders with auto-borrow; a loan in a "
+              "create_loan(symbol in {USD, BTC, ETH}, symbolic amount) and limit/market orders with auto-borrow; an "
+              "open limit order holding funds at the time of the request; a loan in a "
               "symbol whose pair has had no bar yet (valued by the oracle at either candidate price); NoLoans: "
               "every borrow request",
         thorough="adds a second earlier loan, interest symbol != borrowed symbol, symbolic margin requirement with 2 "
@@ -27,7 +28,8 @@ META = dict(
                                           "last closes in the lending quote symbol (the code's and the docs' notion)"],
     outside=["more than 2 priced pairs / 2 earlier loans", "margin calls (not implemented by basana)"],
     required_covers=["a loan was granted", "a borrow request was refused", "a zero-equity account asked for a loan",
-                     "an auto-borrow order was accepted", "something was borrowed and sold before the request"],
+                     "an auto-borrow order was accepted", "something was borrowed and sold before the request",
+                     "an open order held funds when the loan was requested"],
 )
 
 CLOSES = {"BTC": ["100", "31234.56"], "ETH": ["2.5", "1800"]}
@@ -47,7 +49,7 @@ def equity_and_used(w, bal):
 
 
 def borrow(ctx, path="create_loan", lend="margin", earlier=1, margin_req="0.5", min_interest="0", kind="limit",
-           side="buy", lend_quote="USD", req_overrides=None, npairs=2, rebar=False, unpriced=False):
+           side="buy", lend_quote="USD", req_overrides=None, npairs=2, rebar=False, unpriced=False, open_order=False):
     if margin_req == "symbolic":
         margin_req = ctx.dec("margin_requirement", 2, lo=0, hi=300)
     init = {"BTC": Decimal(0)} if earlier == "short" else None
@@ -91,6 +93,11 @@ def borrow(ctx, path="create_loan", lend="margin", earlier=1, margin_req="0.5", 
             w.closes = CLOSES[pair.base_symbol]
             w.feed_bar("rb%d" % i, pair_idx=i)
         w.closes = None
+    if open_order:
+        # an accepted, still open order holds funds when the loan is requested (funds on hold count once in equity)
+        roid = w.place("resting", kind="limit", side=None, pair_idx=0)
+        if roid is not None:
+            ctx.cover("an open order held funds when the loan was requested")
     pre = w.balances()
     eq0, used0 = equity_and_used(w, pre)
     if bool(eq0 == 0):
@@ -149,6 +156,13 @@ def jobs(tier):
     js.append(Job("create_loan after a price move", "borrow",
                   dict(path="create_loan", margin_req="0.5", earlier=1, rebar=True), validate_every=20,
                   sample_every=50, max_paths=200000, split=32))
+    for req in ("0.5", "1"):
+        js.append(Job("create_loan while an open order holds funds req=%s" % req, "borrow",
+                      dict(path="create_loan", margin_req=req, earlier=0, open_order=True), validate_every=20,
+                      sample_every=50, max_paths=200000, split=32))
+    js.append(Job("auto-borrow limit buy while an open order holds funds", "borrow",
+                  dict(path="order", margin_req="0.5", earlier=0, kind="limit", side="buy", open_order=True),
+                  validate_every=20, sample_every=50, max_paths=200000, split=32))
     for req in ("0.5", "0"):
         js.append(Job("create_loan in a symbol that has no price yet req=%s" % req, "borrow",
                       dict(path="create_loan", margin_req=req, earlier=0, unpriced=True), validate_every=20,
